@@ -12,7 +12,7 @@ TRUSTED = ["Coq 8.16.1 kernel + vm_compute", "extraction (ExtrOcamlBasic) + ml/d
            "vlib/streams.py + harness/mkogg.c (stream generators)"]
 
 
-def make_files(rng, nfiles, tier, wd, max_links=4, enc_pool=12, small=False):
+def make_files(rng, nfiles, tier, wd, max_links=4, enc_pool=12, small=False, allow_trim_begin=True):
     """Returns list of dict(data, Ns, pages) : chained files mixing real-encoder and hand-made links."""
     specs = []
     for i in range(enc_pool):
@@ -33,7 +33,7 @@ def make_files(rng, nfiles, tier, wd, max_links=4, enc_pool=12, small=False):
                     d, N = enc[j], specs[j][4]
                     kinds.append("enc")
             if d is None:
-                d, m = vfgen.handmade_link(rng, 5000 + k * 10 + li, small=small)
+                d, m = vfgen.handmade_link(rng, 5000 + k * 10 + li, small=small, allow_trim_begin=allow_trim_begin)
                 N = m["N"]
                 kinds.append("hand")
             data += d
